@@ -123,7 +123,7 @@ func transformC10(t *rapid.T, s *Spec) []string {
 				continue
 			}
 			c.Sets[si].Pkg = cx.intn(lo, c.Sets[si].Pkg, "newpkg")
-			c.Sets[si].Name = cx.fresh("Moved")
+			c.Sets[si].Name = fmt.Sprintf("%sM%d", c.Sets[si].Name, si)
 		case "aliasset":
 			if len(c.Sets) == 0 {
 				continue
